@@ -148,3 +148,49 @@ Example C16_round5_repaired_on_witnesses :
   wf_b (run false true (init_cat_v 1 true true) rename_witness) = false /\
   wf_b (run true true (init_cat_o 1 true true true true false) cancel_witness) = false.
 Proof. vm_compute. repeat split. Qed.
+
+(* ---- the guard of a cancelled deletion must be an INTERVAL-overlap test ----
+   A guard that only asks whether a live group of the same engine kind serves the START of the group being revived is equivalent
+   while all groups are cells of one grid; after the shard-group duration was shortened a live group can lie inside the deleted
+   group's span without containing its start. *)
+Definition serves_start (l : list sgroup) (g : sgroup) : bool := existsb (fun x => covers x (sg_start g) (sg_eng g)) l.
+Definition cancel_delete_start_only (c : cat) (db rp id : Z) : cat * bool :=
+  match get_pol c db rp with
+  | None => err c
+  | Some p =>
+      match find (fun g => sg_id g =? id) (rp_sgs p) with
+      | None => ok c
+      | Some g =>
+          if negb (sg_del g) then ok c else
+          if serves_start (rp_sgs p) g then ok c else
+          ok (upd_pol c db (rp_name p) (fun q => pol_set_sgs q (upd_first (fun g => sg_id g =? id) sg_set_live (rp_sgs q))))
+      end
+  end.
+
+(* [10:00,12:00) created under 2h groups and marked deleted; the duration becomes 1h; a group is created for 11:30: [11:00,12:00) *)
+Definition shorter_witness : list cmd :=
+  [CreateNode 1 1; CreateDb 1 1 0 (2 * HOUR); CreateMst 1 1 1; CreateSg 1 1 1700042400000000005 0; DeleteSg 1 1 1;
+   UpdateRp 1 1 None (Some HOUR) false; CreateSg 1 1 1700047800000000000 0].
+
+Theorem C16_cancel_start_only_refuted :
+  exists cs p a b, let c := fst (cancel_delete_start_only (run true true (init_cat_rep 1 true) cs) 1 1 1) in
+    In p (pols c) /\ In a (rp_sgs p) /\ In b (rp_sgs p) /\ sg_id a <> sg_id b /\ overlapping a b.
+Proof.
+  exists shorter_witness. cbv zeta.
+  set (c := fst (cancel_delete_start_only (run true true (init_cat_rep 1 true) shorter_witness) 1 1 1)).
+  vm_compute in c.
+  eexists. eexists. eexists.
+  split. { left. reflexivity. }
+  split. { left. reflexivity. }
+  split. { right. left. reflexivity. }
+  split. { vm_compute. discriminate. }
+  unfold overlapping. cbn. repeat split; try reflexivity.
+Qed.
+Print Assumptions C16_cancel_start_only_refuted.
+
+(* the interval-overlap guard of the code refuses on the same state: the catalogue stays as it is, well-formed *)
+Example C16_cancel_overlap_guard_refuses :
+  let c := run true true (init_cat_rep 1 true) shorter_witness in
+  apply_repaired c (CancelDeleteSg 1 1 1) = (c, true) /\ wf_b c = true /\
+  wf_b (fst (cancel_delete_start_only c 1 1 1)) = false.
+Proof. vm_compute. repeat split. Qed.
